@@ -8,8 +8,6 @@ use paseto_core::key::HasKey;
 use paseto_core::pae::{WriteBytes, pre_auth_encode};
 use paseto_core::version::Public;
 use rsa::pss::Signature;
-#[cfg(feature = "signing")]
-use rsa::rand_core::OsRng;
 use rsa::traits::PublicKeyParts;
 
 #[cfg(feature = "signing")]
@@ -78,14 +76,65 @@ impl HasKey<paseto_core::version::Secret> for V1 {
     }
 }
 
+/// The operating system's random source for the `rsa` crate, which reports a failed draw instead of
+/// panicking (as `OsRng::fill_bytes` does): callers check `failed` and discard what was computed.
+///
+/// `RngCore::fill_bytes` cannot return an error, and RSA key generation only terminates if the
+/// stream keeps changing, so after a failure the (to be discarded) computation is fed from a
+/// fixed counter-based stream instead of real randomness.
+#[cfg(feature = "signing")]
+#[derive(Default)]
+struct FallibleOsRng {
+    failed: bool,
+    filler: u64,
+}
+
+#[cfg(feature = "signing")]
+impl rsa::rand_core::RngCore for FallibleOsRng {
+    fn next_u32(&mut self) -> u32 {
+        let mut b = [0; 4];
+        self.fill_bytes(&mut b);
+        u32::from_le_bytes(b)
+    }
+
+    fn next_u64(&mut self) -> u64 {
+        let mut b = [0; 8];
+        self.fill_bytes(&mut b);
+        u64::from_le_bytes(b)
+    }
+
+    fn fill_bytes(&mut self, dest: &mut [u8]) {
+        if self.failed || getrandom::fill(dest).is_err() {
+            self.failed = true;
+            for b in dest {
+                // splitmix64; never used for anything that is returned to the caller
+                self.filler = self.filler.wrapping_add(0x9e37_79b9_7f4a_7c15);
+                let mut z = self.filler;
+                z = (z ^ (z >> 30)).wrapping_mul(0xbf58_476d_1ce4_e5b9);
+                z = (z ^ (z >> 27)).wrapping_mul(0x94d0_49bb_1331_11eb);
+                *b = (z ^ (z >> 31)) as u8;
+            }
+        }
+    }
+
+    fn try_fill_bytes(&mut self, dest: &mut [u8]) -> Result<(), rsa::rand_core::Error> {
+        self.fill_bytes(dest);
+        Ok(())
+    }
+}
+
+#[cfg(feature = "signing")]
+impl rsa::rand_core::CryptoRng for FallibleOsRng {}
+
 #[cfg(feature = "signing")]
 impl SecretKey {
     pub(crate) fn random() -> Result<Self, PasetoError> {
-        use rsa::rand_core::OsRng;
-
-        rsa::pss::SigningKey::random(&mut OsRng, 2048)
-            .map_err(|_| PasetoError::InvalidKey)
-            .map(Self)
+        let mut rng = FallibleOsRng::default();
+        let key = rsa::pss::SigningKey::random(&mut rng, 2048);
+        if rng.failed {
+            return Err(PasetoError::CryptoError);
+        }
+        key.map_err(|_| PasetoError::InvalidKey).map(Self)
     }
 }
 
@@ -119,11 +168,12 @@ impl paseto_core::version::SealingVersion<Public> for V1 {
         }
 
         let digest = preauth_public(encoding, &payload, footer);
-        let signature: Box<[u8]> = key
-            .0
-            .try_sign_digest_with_rng(&mut OsRng, digest)
-            .map_err(|_| PasetoError::CryptoError)?
-            .into();
+        let mut rng = FallibleOsRng::default();
+        let signature = key.0.try_sign_digest_with_rng(&mut rng, digest);
+        if rng.failed {
+            return Err(PasetoError::CryptoError);
+        }
+        let signature: Box<[u8]> = signature.map_err(|_| PasetoError::CryptoError)?.into();
 
         payload.extend_from_slice(&signature);
 
